@@ -274,8 +274,9 @@ func cmdCheck(args []string) {
 		violations = append(violations, fmt.Sprintf("VIOLATION property=%s replay=%s obligation=%s%s", prop, path, name, suffix))
 	}
 
-	for _, e := range res.Errors {
-		viol("machinery-error", e, nil)
+	for i, e := range res.Errors {
+		viol(fmt.Sprintf("machinery-error-%d", i+1), e, nil)
+		fmt.Println("machinery error:", e)
 	}
 	nObl, nDis, nBounded, nKnown := 0, 0, 0, 0
 	perBackend := map[string]int{}
